@@ -288,7 +288,7 @@ Qed.
 
 (** *** the aggregate side *)
 Lemma acc_emit_no_panic : forall a, acc_emit a <> Panic.
-Proof. intros a. destruct a; cbn [acc_emit]; try discriminate. destruct vals; discriminate. Qed.
+Proof. intros a. destruct a; cbn [acc_emit]; discriminate. Qed.
 
 Lemma sequence_res_np {A} (l : list (res A)) :
   Forall (fun r => r <> Panic) l -> sequence_res l <> Panic.
